@@ -43,14 +43,14 @@ Push(f) == Append(stack, f)
 Repl(f) == Append(Pop, f)
 
 \* ---- frames --------------------------------------------------------------
-Gen(L)          == [p |-> "gen", L |-> L, st |-> "enter", left |-> <<>>]
-PNum            == [p |-> "pnum"]
-AfterSign(neg)  == [p |-> "sign", neg |-> neg]
-Encl(k)         == [p |-> "encl", k |-> k]                        \* after the inner expression of an opener of kind k
-Static(k, fp, n, acc) == [p |-> "static", k |-> k, fp |-> fp, n |-> n, acc |-> acc, st |-> "arg"]
-Items(k, fp, acc)     == [p |-> "items", k |-> k, fp |-> fp, acc |-> acc, st |-> "top"]
-Impl(node)      == [p |-> "impl", node |-> node, st |-> "test"]
-Conv(k, left)   == [p |-> "conv", k |-> k, left |-> left]
+FGen(L)          == [p |-> "gen", L |-> L, st |-> "enter", left |-> <<>>]
+FPNum            == [p |-> "pnum"]
+FAfterSign(neg)  == [p |-> "sign", neg |-> neg]
+FEncl(k)         == [p |-> "encl", k |-> k]                        \* after the inner expression of an opener of kind k
+FStatic(k, fp, n, acc) == [p |-> "static", k |-> k, fp |-> fp, n |-> n, acc |-> acc, st |-> "arg"]
+FItems(k, fp, acc)     == [p |-> "items", k |-> k, fp |-> fp, acc |-> acc, st |-> "top"]
+FImpl(node)      == [p |-> "impl", node |-> node, st |-> "test"]
+FConv(k, left)   == [p |-> "conv", k |-> k, left |-> left]
 
 \* ---- the environment: next token on demand -------------------------------
 Supply(k) == /\ (Len(hist) < MN \/ k = "eof")
@@ -64,14 +64,14 @@ Fail == /\ status' = "err" /\ result' = [ok |-> FALSE, node |-> <<>>, pos |-> po
 Return(r) == stack' = Pop /\ ret' = r
 
 Init == /\ \E k \in MK \cup {"eof"} : hist = <<k>> /\ evs = <<<<"T", k>>>>
-        /\ stack = <<Gen(LvlZero)>> /\ ret = NoRet /\ status = "run"
+        /\ stack = <<FGen(LvlZero)>> /\ ret = NoRet /\ status = "run"
         /\ result = [ok |-> FALSE, node |-> <<>>, pos |-> 0] /\ ticks = 0
 
 \* ---- generate_ast --------------------------------------------------------
 GenEnter == /\ Top.p = "gen" /\ Top.st = "enter" /\ ret = NoRet
             /\ ticks' = ticks + 1
             /\ evs' = Append(evs, <<"G", Top.L>>)
-            /\ stack' = Append(Repl([Top EXCEPT !.st = "num"]), PNum)
+            /\ stack' = Append(Repl([Top EXCEPT !.st = "num"]), FPNum)
             /\ UNCHANGED <<hist, ret, status, result>>
 GenAfterNum == /\ Top.p = "gen" /\ Top.st = "num" /\ ret # NoRet
                /\ IF ret.ok THEN stack' = Repl([Top EXCEPT !.st = "loop", !.left = ret.node]) /\ ret' = NoRet
@@ -80,7 +80,7 @@ GenAfterNum == /\ Top.p = "gen" /\ Top.st = "num" /\ ret # NoRet
 GenLoop == /\ Top.p = "gen" /\ Top.st = "loop" /\ ret = NoRet
            /\ IF Top.L < Prec(cur)
               THEN /\ ticks' = ticks + 1
-                   /\ stack' = Append(Repl([Top EXCEPT !.st = "conv"]), Conv(cur, Top.left))
+                   /\ stack' = Append(Repl([Top EXCEPT !.st = "conv"]), FConv(cur, Top.left))
                    /\ UNCHANGED ret
               ELSE /\ Return(ROk(Top.left)) /\ UNCHANGED ticks
            /\ UNCHANGED <<hist, status, result, evs>>
@@ -96,16 +96,16 @@ PNumStep ==
      CASE k \in {"ans", "const"} ->
             /\ Advance /\ Return(ROk(<<k, p0>>)) /\ UNCHANGED <<status, result, ticks>>
        [] k = "num" ->
-            /\ Advance /\ stack' = Repl(Impl(<<"num", p0>>)) /\ UNCHANGED <<ret, status, result, ticks>>
+            /\ Advance /\ stack' = Repl(FImpl(<<"num", p0>>)) /\ UNCHANGED <<ret, status, result, ticks>>
        [] k \in {"sub", "add"} ->
-            /\ Advance /\ stack' = Append(Repl(AfterSign(k = "sub")), Gen(LvlNeg)) /\ UNCHANGED <<ret, status, result, ticks>>
+            /\ Advance /\ stack' = Append(Repl(FAfterSign(k = "sub")), FGen(LvlNeg)) /\ UNCHANGED <<ret, status, result, ticks>>
        [] k \in Openers ->
-            /\ Advance /\ stack' = Append(Repl(Encl(k)), Gen(LvlZero)) /\ UNCHANGED <<ret, status, result, ticks>>
+            /\ Advance /\ stack' = Append(Repl(FEncl(k)), FGen(LvlZero)) /\ UNCHANGED <<ret, status, result, ticks>>
        [] k \in {"f1", "f2"} ->
-            /\ Advance /\ stack' = Repl([Static(k, p0, IF k = "f1" THEN 1 ELSE 2, <<>>) EXCEPT !.st = "lp"])
+            /\ Advance /\ stack' = Repl([FStatic(k, p0, IF k = "f1" THEN 1 ELSE 2, <<>>) EXCEPT !.st = "lp"])
             /\ UNCHANGED <<ret, status, result, ticks>>
        [] k \in {"fv", "fa"} ->
-            /\ Advance /\ stack' = Repl([Items(k, p0, <<>>) EXCEPT !.st = "lp"]) /\ UNCHANGED <<ret, status, result, ticks>>
+            /\ Advance /\ stack' = Repl([FItems(k, p0, <<>>) EXCEPT !.st = "lp"]) /\ UNCHANGED <<ret, status, result, ticks>>
        [] OTHER -> Fail /\ UNCHANGED <<hist, ticks, evs>>
 SignAfter == /\ Top.p = "sign" /\ ret # NoRet
              /\ Return(IF ret.ok /\ Top.neg THEN ROk(<<"neg", ret.node>>) ELSE ret)
@@ -114,7 +114,7 @@ SignAfter == /\ Top.p = "sign" /\ ret # NoRet
 EnclAfter == /\ Top.p = "encl" /\ ret # NoRet
              /\ IF ~ret.ok THEN Return(ret) /\ UNCHANGED <<hist, status, result, evs>>
                 ELSE IF cur = Close(Top.k)
-                     THEN Advance /\ stack' = Repl(Impl(<<Top.k, ret.node>>)) /\ ret' = NoRet /\ UNCHANGED <<status, result>>
+                     THEN Advance /\ stack' = Repl(FImpl(<<Top.k, ret.node>>)) /\ ret' = NoRet /\ UNCHANGED <<status, result>>
                      ELSE Fail /\ UNCHANGED <<hist, evs>>
              /\ UNCHANGED ticks
 
@@ -125,13 +125,13 @@ StaticLp == /\ Top.p = "static" /\ Top.st = "lp" /\ ret = NoRet
             /\ UNCHANGED ticks
 StaticArg == /\ Top.p = "static" /\ Top.st = "arg" /\ ret = NoRet
              /\ ticks' = ticks + 1
-             /\ stack' = Append(Repl([Top EXCEPT !.st = "after"]), Gen(LvlZero))
+             /\ stack' = Append(Repl([Top EXCEPT !.st = "after"]), FGen(LvlZero))
              /\ UNCHANGED <<hist, ret, status, result, evs>>
 StaticAfter == /\ Top.p = "static" /\ Top.st = "after" /\ ret # NoRet
                /\ IF ~ret.ok THEN Return(ret) /\ UNCHANGED <<hist, status, result, evs>>
                   ELSE LET acc == Append(Top.acc, ret.node) IN
                        IF Top.n = 1
-                       THEN (IF cur = "rp" THEN Advance /\ stack' = Repl(Impl(<<Top.k, Top.fp, acc>>)) /\ ret' = NoRet /\ UNCHANGED <<status, result>>
+                       THEN (IF cur = "rp" THEN Advance /\ stack' = Repl(FImpl(<<Top.k, Top.fp, acc>>)) /\ ret' = NoRet /\ UNCHANGED <<status, result>>
                                            ELSE Fail /\ UNCHANGED <<hist, evs>>)
                        ELSE (IF cur = "comma" THEN Advance /\ stack' = Repl([Top EXCEPT !.st = "arg", !.n = Top.n - 1, !.acc = acc]) /\ ret' = NoRet /\ UNCHANGED <<status, result>>
                                               ELSE Fail /\ UNCHANGED <<hist, evs>>)
@@ -146,22 +146,22 @@ ItemsTop == /\ Top.p = "items" /\ Top.st = "top" /\ ret = NoRet
             /\ ticks' = ticks + 1
             /\ IF Top.acc = <<>> /\ cur = "rp"
                THEN \* an empty list: avg() is 0, every other aggregate rejects it (at the closing bracket just consumed)
-                    IF Top.k = "fa" THEN Advance /\ stack' = Repl(Impl(<<"zero", Top.fp>>)) /\ UNCHANGED <<ret, status, result>>
+                    IF Top.k = "fa" THEN Advance /\ stack' = Repl(FImpl(<<"zero", Top.fp>>)) /\ UNCHANGED <<ret, status, result>>
                     ELSE /\ Advance
                          /\ status' = "err" /\ result' = [ok |-> FALSE, node |-> <<>>, pos |-> pos] /\ stack' = <<>> /\ ret' = NoRet
-               ELSE /\ stack' = Append(Repl([Top EXCEPT !.st = "after"]), Gen(LvlZero))
+               ELSE /\ stack' = Append(Repl([Top EXCEPT !.st = "after"]), FGen(LvlZero))
                     /\ UNCHANGED <<hist, ret, status, result, evs>>
 ItemsAfter == /\ Top.p = "items" /\ Top.st = "after" /\ ret # NoRet
               /\ IF ~ret.ok THEN Return(ret) /\ UNCHANGED <<hist, status, result, evs>>
                  ELSE LET acc == Append(Top.acc, ret.node) IN
                       IF cur = "comma" THEN Advance /\ stack' = Repl([Top EXCEPT !.st = "top", !.acc = acc]) /\ ret' = NoRet /\ UNCHANGED <<status, result>>
-                      ELSE IF cur = "rp" THEN Advance /\ stack' = Repl(Impl(<<Top.k, Top.fp, acc>>)) /\ ret' = NoRet /\ UNCHANGED <<status, result>>
+                      ELSE IF cur = "rp" THEN Advance /\ stack' = Repl(FImpl(<<Top.k, Top.fp, acc>>)) /\ ret' = NoRet /\ UNCHANGED <<status, result>>
                       ELSE Fail /\ UNCHANGED <<hist, evs>>
               /\ UNCHANGED ticks
 
 \* ---- implicit_multiply ---------------------------------------------------
 ImplTest == /\ Top.p = "impl" /\ Top.st = "test" /\ ret = NoRet
-            /\ IF Trig(cur) THEN stack' = Append(Repl([Top EXCEPT !.st = "after"]), Gen(LvlMul)) /\ UNCHANGED ret
+            /\ IF Trig(cur) THEN stack' = Append(Repl([Top EXCEPT !.st = "after"]), FGen(LvlMul)) /\ UNCHANGED ret
                             ELSE Return(ROk(Top.node))
             /\ UNCHANGED <<hist, status, result, ticks, evs>>
 ImplAfter == /\ Top.p = "impl" /\ Top.st = "after" /\ ret # NoRet
@@ -171,9 +171,9 @@ ImplAfter == /\ Top.p = "impl" /\ Top.st = "after" /\ ret # NoRet
 \* ---- convert_token_to_node -----------------------------------------------
 ConvStep == /\ Top.p = "conv" /\ ret = NoRet
             /\ LET k == Top.k p0 == pos IN
-               CASE k \in BinOps -> /\ Advance /\ stack' = Append(Repl([Top EXCEPT !.k = "binafter:" \o k]), Gen(Prec(k)))
+               CASE k \in BinOps -> /\ Advance /\ stack' = Append(Repl([Top EXCEPT !.k = "binafter:" \o k]), FGen(Prec(k)))
                                     /\ UNCHANGED <<ret, status, result>>
-                 [] k = "bang" -> Advance /\ stack' = Repl(Impl(<<"fact", Top.left>>)) /\ UNCHANGED <<ret, status, result>>
+                 [] k = "bang" -> Advance /\ stack' = Repl(FImpl(<<"fact", Top.left>>)) /\ UNCHANGED <<ret, status, result>>
                  [] k \in {"deg", "rad"} -> Advance /\ Return(ROk(<<k, Top.left>>)) /\ UNCHANGED <<status, result>>
                  [] k = "sup" -> Advance /\ Return(ROk(<<"psup", Top.left, p0>>)) /\ UNCHANGED <<status, result>>
                  [] OTHER -> Fail /\ UNCHANGED <<hist, evs>>
@@ -215,4 +215,8 @@ DepthBound == Len(stack) <= 3 * Len(hist) + 2
 Linear == ticks <= 2 + 3 * Len(hist)
 \* a finished procedure's result is picked up at once; nothing is pending when the machine stops
 RetDiscipline == (Done => (ret = NoRet /\ stack = <<>>))
+\* negative controls (expected to be violated): the machine does accept, does fail, and does nest
+NeverAccepts == status # "ok"
+NeverFailsEarly == ~(status = "err" /\ cur # "eof")
+ShallowOnly == Len(stack) <= 6
 =============================================================================
